@@ -95,6 +95,14 @@ func (c c01) Generate(seed uint64, tier string, idx int) *core.Plan {
 	if tier == "thorough" {
 		nsess = r.Range(3, 24)
 	}
+	// origins registered while traffic is already flowing (both registration entry points)
+	lateFrom := nor
+	if nor > 0 && r.Bool(40) {
+		for k := 0; k < r.Range(1, 2); k++ {
+			p.Steps = append(p.Steps, core.Step{Op: "origin", A: []int64{0, int64(r.Pick([]int{5, 14, 33})), int64(r.Intn(1 << 20)), int64(r.Intn(2)), int64(300 + k), 12_000_000}})
+			nor++
+		}
+	}
 	maxBatch := 40
 	if tier == "thorough" && r.Bool(4) {
 		maxBatch = 520
@@ -124,6 +132,11 @@ func (c c01) Generate(seed uint64, tier string, idx int) *core.Plan {
 		a[sChLen] = int64(chLens[r.Intn(len(chLens))])
 		a[sSeed] = int64(r.Intn(1 << 30))
 		a[sDelay] = int64(r.Intn(20)) * 1_000_000
+		if t == 3 && int(a[sOrigin]) >= lateFrom {
+			a[sDelay] = int64(r.Range(20, 40)) * 1_000_000 // after the late registration
+		} else if t == 3 {
+			a[sDelay] = int64(r.Intn(8)) * 1_000_000 // early type-3 traffic precedes it
+		}
 		a[sAnon] = -1
 		if t == 3 {
 			// an honest client commits to one anonymous origin id per origin
